@@ -38,6 +38,12 @@ type runConfig struct {
 	Params         map[string]int
 	Env            map[string]string
 	TimeBudget     time.Duration
+	Replay         *replayInput
+}
+
+type replayInput struct {
+	Vars    map[string]uint64
+	Choices []int
 }
 
 type harnessResult struct {
@@ -156,6 +162,7 @@ func cmdRun(args []string) int {
 	tags := fs.String("tags", "", "build tags")
 	timeBudget := fs.Duration("time", 0, "wall-clock budget per harness (0 = none)")
 	cpuprof := fs.String("cpuprofile", "", "write CPU profile")
+	replayFile := fs.String("replay", "", "re-execute one counterexample file concretely (interpreted replay)")
 	fs.Parse(args)
 
 	cfg := &runConfig{Solver: *solver, QueryTimeoutMs: *qto, StepBudget: *steps, MaxDecisions: *maxDec,
@@ -181,6 +188,37 @@ func cmdRun(args []string) int {
 		f, _ := os.Create(*cpuprof)
 		pprof.StartCPUProfile(f)
 		defer pprof.StopCPUProfile()
+	}
+	if *replayFile != "" {
+		b, err := os.ReadFile(*replayFile)
+		if err != nil {
+			fmt.Fprintln(os.Stderr, "symgo:", err)
+			return 3
+		}
+		var rf struct {
+			Vars  map[string]uint64 `json:"vars"`
+			Extra map[string]string `json:"extra"`
+		}
+		if err := json.Unmarshal(b, &rf); err != nil {
+			fmt.Fprintln(os.Stderr, "symgo:", err)
+			return 3
+		}
+		ri := &replayInput{Vars: rf.Vars}
+		cur, in := 0, false
+		for _, c := range rf.Extra["choices"] {
+			if c >= '0' && c <= '9' {
+				cur = cur*10 + int(c-'0')
+				in = true
+			} else if in {
+				ri.Choices = append(ri.Choices, cur)
+				cur, in = 0, false
+			}
+		}
+		if in {
+			ri.Choices = append(ri.Choices, cur)
+		}
+		cfg.Replay = ri
+		cfg.Workers = 1
 	}
 	t0 := time.Now()
 	prog, pkg, err := loadProgram(*repo, *pkgPat, *overlayDir, *tags)
